@@ -51,6 +51,30 @@ Proof. vm_compute. reflexivity. Qed.
 Lemma ex_depth3_classic : classic_qq mk0 (ev_of env1) (fuel_for T2) T2 = Ok (Some R2).
 Proof. vm_compute. reflexivity. Qed.
 
+(* mixed operators in one chain (seeded regression C21-nested-unquote-order): the remaining OUTER operators are re-wrapped
+   around every spliced element in their original order, outermost first (base.MakeNestedQuote applies toks[last] first):
+     QQ{QQ{QQ{a; UNQ{SPLICE{SPLICE{x}}}; SPLICE{UNQ{SPLICE{x}}}}}}
+   = QQ{QQ{a; UNQ{SPLICE{7}}; UNQ{SPLICE{8}}; SPLICE{UNQ{7}}; SPLICE{UNQ{8}}}} *)
+Definition T3 : tree :=
+  q QUASIQUOTE [es (q QUASIQUOTE [es (q QUASIQUOTE
+     [es (id_ 31);
+      es (q UNQUOTE [es (q UNQUOTE_SPLICE [es (q UNQUOTE_SPLICE [es (id_ 10)])])]);
+      es (q UNQUOTE_SPLICE [es (q UNQUOTE [es (q UNQUOTE_SPLICE [es (id_ 10)])])])])])].
+Definition R3 : tree :=
+  q QUASIQUOTE [es (q QUASIQUOTE
+     [es (id_ 31);
+      es (q UNQUOTE [es (q UNQUOTE_SPLICE [es (lit 7)])]); es (q UNQUOTE [es (q UNQUOTE_SPLICE [es (lit 8)])]);
+      es (q UNQUOTE_SPLICE [es (q UNQUOTE [es (lit 7)])]); es (q UNQUOTE_SPLICE [es (q UNQUOTE [es (lit 8)])])])].
+
+Lemma ex_mixed_chain_fast : fast_qq mk0 (ev_of env1) (fuel_for T3) T3 = Ok (Some R3).
+Proof. vm_compute. reflexivity. Qed.
+Lemma ex_mixed_chain_classic : classic_qq mk0 (ev_of env1) (fuel_for T3) T3 = Ok (Some R3).
+Proof. vm_compute. reflexivity. Qed.
+(* MakeNestedQuote: the first operator of the sequence ends up outermost, for every sequence *)
+Lemma nest_outermost_first : forall mk op ops e,
+  nest mk (op :: ops) e = match nest mk ops e with Ok inner => make_quote mk op (Some inner) | Err => Err | OutOfFuel => OutOfFuel end.
+Proof. intros. simpl. destruct (nest mk ops e); reflexivity. Qed.
+
 (* the hypothesis of the specification theorem is satisfiable: environments of the harness *)
 Lemma ev_of_unq : forall env x, unq_chain x <> None -> ev_of env x = Err.
 Proof.
